@@ -289,4 +289,93 @@ def M12c():
     return d
 
 
+def random_spec(seed):
+    """A pseudo-random valid framework within the catalogue's vocabulary: 2-3 ordinary compartments, optional source, sink, one or two
+    junctions (plain or residual, possibly chained, listed in random order) and an optional duration group of one or two timed
+    compartments; transitions with random unit types. Deterministic in `seed` (own linear congruential generator)."""
+    state = [(seed * 2654435761 + 12345) % 2**32]
+
+    def rnd(n):
+        state[0] = (state[0] * 1664525 + 1013904223) % 2**32
+        return (state[0] >> 8) % n
+
+    def coin(p100=50):
+        return rnd(100) < p100
+
+    units = ["probability", "rate", "duration", "number"]
+    n_ord = 2 + rnd(2)
+    ords = ["c%d" % i for i in range(n_ord)]
+    comps = [dict(name=c, default=50 + 25 * i) for i, c in enumerate(ords)]
+    pars = []
+    trans = {}
+
+    def newpar(fmt, **kw):
+        nm = "p%d" % len(pars)
+        d = dict(name=nm, format=fmt, default={"probability": 0.3, "rate": 0.4, "duration": 1.5, "number": 7, "proportion": 0.5}[fmt])
+        if fmt != "proportion" and coin(30):
+            d["timescale"] = [0.5, 2.0, 1.0 / 12][rnd(3)]
+        d.update(kw)
+        pars.append(d)
+        return nm
+
+    # a cycle through the ordinary compartments plus a few random extra edges
+    for i, c in enumerate(ords):
+        trans[(c, ords[(i + 1) % n_ord])] = newpar(units[rnd(4)])
+    for _ in range(rnd(3)):
+        a, b = ords[rnd(n_ord)], ords[rnd(n_ord)]
+        if a != b and (a, b) not in trans:
+            trans[(a, b)] = pars[rnd(len(pars))]["name"] if coin(30) and pars[rnd(len(pars))]["format"] != "proportion" else newpar(units[rnd(4)])
+    if coin(60):
+        comps.insert(0, dict(name="src", source="y"))
+        trans[("src", ords[0])] = newpar("number")
+    if coin(60):
+        comps.append(dict(name="dead", sink="y"))
+        for c in ords[: 1 + rnd(n_ord)]:
+            trans[(c, "dead")] = newpar(units[rnd(4)])
+    timed = []
+    if coin(50):
+        timed = ["t0", "t1"][: 1 + rnd(2)]
+        dur = dict(name="dur", format="duration", default=[0.5, 0.6, 0.25][rnd(3)], timed="y")
+        pars.append(dur)
+        for k, t in enumerate(timed):
+            comps.append(dict(name=t, default=20 + 10 * k))
+            trans[(t, ords[rnd(n_ord)])] = "dur"
+        trans[(ords[0], timed[0])] = newpar(["probability", "rate"][rnd(2)])
+        if len(timed) == 2:
+            trans[(timed[0], timed[1])] = newpar(["probability", "rate"][rnd(2)])
+        if coin():
+            trans[(timed[-1], ords[-1] if ("dur" != trans.get((timed[-1], ords[-1]))) else ords[0])] = newpar(["probability", "rate", "number"][rnd(3)]) if (timed[-1], ords[-1]) not in trans else trans[(timed[-1], ords[-1])]
+    njun = rnd(3)
+    juncs = ["j%d" % i for i in range(njun)]
+    jcomps = []
+    for k, j in enumerate(juncs):
+        jcomps.append(dict(name=j, junction="y", setup=True, default=10 + 5 * k) if coin(60) else dict(name=j, junction="y"))
+        if k == 0 or coin(40):
+            trans[(ords[rnd(n_ord)], j)] = newpar(["probability", "rate"][rnd(2)])
+        if k > 0 and (coin(70) or not any(d == j for (s_, d) in trans)):
+            trans[(juncs[k - 1], j)] = newpar("proportion")
+        targets = [c for c in ords]
+        nout = 1 + rnd(2)
+        used = set()
+        for _ in range(nout):
+            d = targets[rnd(len(targets))]
+            if d not in used:
+                used.add(d)
+                trans[(j, d)] = newpar("proportion")
+        if coin(40):
+            rest = [c for c in ords if c not in used]
+            if rest:
+                trans[(j, rest[0])] = ">"
+    # junctions are listed in random position/order among the compartments
+    for jc in jcomps:
+        comps.insert(rnd(len(comps) + 1), jc)
+    # a junction with no inflow is pointless but valid; one with no outflow is not: guaranteed above
+    return dict(name="R%d" % seed, comps=comps, pars=pars, transitions=trans)
+
+
 CATALOGUE = dict(M1=M1, M2=M2, M4=M4, M5=M5, M5C=M5C, M5F=M5F, M5R=M5R, M6=M6, M7=M7, M8=M8, M8J=M8J, M8R=M8R, M8B=M8B, M10=M10, M10F=M10F, M7F=M7F, M12=M12, M12c=M12c)
+
+
+RANDOM_SEEDS = [3, 4, 5, 6, 7, 9, 12, 14, 21, 22, 23, 29, 31, 35, 37, 42, 47, 51, 55, 58, 59]  # seeds whose framework passes validation (probed once)
+for _s in RANDOM_SEEDS:
+    CATALOGUE["R%d" % _s] = (lambda _s=_s: random_spec(_s))
